@@ -65,7 +65,7 @@ impl Plan {
                 fam.name(),
                 cont.name(),
                 n,
-                if *plain { " (child handles without drop glue)" } else { "" }
+                if *plain && fam.is_stream() { " (zero-sized items)" } else if *plain { " (child handles without drop glue)" } else { "" }
             ),
             Shape::Nested { kind } => format!("nested shape {}", crate::nested::name(*kind)),
             Shape::Dyn { tree } => format!("generated nested shape {}", crate::dynnest::describe(tree)),
@@ -259,7 +259,16 @@ fn pick_n(w: &mut World, fam: Family, cont: Cont, big: bool) -> usize {
         Cont::Vec => match w.ch.draw("n.vec.class", if big { 20 } else { 14 }) {
             0..=13 => w.ch.draw("n.vec", 7) as usize,
             14..=17 => 7 + w.ch.draw("n.vec", 18) as usize,
-            _ => [22, 23, 24, 31, 32, 33, 62, 63, 64, 65, 66, 93, 100, 127, 128, 129, 200, 255, 256, 257][w.ch.draw("n.vec.big", 20) as usize],
+            _ => {
+                // one large-Vec run in three hundred is huge (a 16-bit length or index field truncates at 65 536)
+                // (future families only: a stream combinator scans its inputs on every one of the tens of thousands of
+                // polls such a run would need)
+                if !small() && w.prop != "C02" && !fam.is_stream() && w.ch.draw("n.vec.huge", 300) == 299 {
+                    [65_536, 65_537][w.ch.draw("n.vec.hugen", 2) as usize]
+                } else {
+                    [22, 23, 24, 31, 32, 33, 62, 63, 64, 65, 66, 93, 100, 127, 128, 129, 200, 255, 256, 257][w.ch.draw("n.vec.big", 20) as usize]
+                }
+            }
         },
     };
     if supported(fam, cont, n) {
@@ -273,8 +282,33 @@ fn pick_n(w: &mut World, fam: Family, cont: Cont, big: bool) -> usize {
 pub fn flat(w: &mut World, p: &Profile) -> Plan {
     let fam = p.families[w.ch.draw("fam", p.families.len() as u32) as usize];
     if matches!(fam, Family::WaitUntilF | Family::WaitUntilS) {
-        let inner = if fam == Family::WaitUntilF { fut_script(w, false, p, false, 0) } else { stream_script(w, p, false) };
-        let deadline = fut_script(w, false, p, false, 0);
+        let mut inner = if fam == Family::WaitUntilF { fut_script(w, false, p, false, 0) } else { stream_script(w, p, false) };
+        let mut deadline = fut_script(w, false, p, false, 0);
+        // one stream run in twenty: the inner stream is endless and consumed for a few hundred items
+        if fam == Family::WaitUntilS && !small() && w.ch.draw("wait.long", 20) == 19 {
+            inner = LeafPlan { script: Vec::new(), term: Terminal::Forever };
+            return Plan {
+                shape: Shape::Flat { fam, cont: Cont::Tuple, n: 2, plain: false },
+                leaves: vec![inner, deadline],
+                cancel_at: None,
+                max_yields: 260 + w.ch.draw("wait.long.len", 80),
+                distinguished: None,
+            };
+        }
+        // one run in twenty: the deadline stays Pending for a few hundred self-woken polls
+        if !small() && w.ch.draw("wait.marathon", 20) == 19 {
+            let len = 260 + w.ch.draw("wait.marathon.len", 60);
+            let mut script: Vec<Step> = (0..len).map(|i| Step::Pend(if i % 3 == 2 { Wake::Later(0) } else { Wake::SelfNow })).collect();
+            script.push(Step::Ready { err: false });
+            deadline = LeafPlan { script, term: Terminal::Finished };
+            return Plan {
+                shape: Shape::Flat { fam, cont: Cont::Tuple, n: 2, plain: false },
+                leaves: vec![inner, deadline],
+                cancel_at: None,
+                max_yields: len + 1_000_000,
+                distinguished: None,
+            };
+        }
         return Plan {
             shape: Shape::Flat { fam, cont: Cont::Tuple, n: 2, plain: false },
             leaves: vec![inner, deadline],
@@ -301,17 +335,47 @@ pub fn flat(w: &mut World, p: &Profile) -> Plan {
     // large containers: in half of the runs readiness is *sparse* — every child starts with one or more
     // Pending steps except one or two drawn positions (otherwise "the first k children in scan order are all
     // pending" has probability 2^-k and budget / block-boundary effects beyond a few dozen children are never reached)
-    let sparse = n > 6 && w.ch.draw("big.sparse", 2) == 1;
+    // ... and in a quarter they are *dense*: every child resolves (or every stream is an empty / one-item stream) on its
+    // first poll except zero to two drawn positions — whole batches of 32 / 64 / 128 children finish in one poll; for
+    // fallible families all Ok, all Err, or mixed. Huge containers (65 536 children) are always dense.
+    let mode = if n > 60_000 {
+        2
+    } else if n > 6 {
+        w.ch.draw("big.mode", 4)
+    } else {
+        0
+    };
+    let sparse = mode == 1 || mode == 3;
+    let dense = mode == 2;
+    let dense_outcome = if dense { w.ch.draw("dense.outcome", 3) } else { 0 };
+    // dense streams: one in `dense_items` inputs has an item, the others are empty (long runs of inputs ending in one poll)
+    let dense_items = if dense { [3, 16, 1000][w.ch.draw("dense.items", 3) as usize] } else { 3 };
     let mut leaves = Vec::with_capacity(n);
     for _ in 0..n {
-        let mut lp = if fam.is_stream() { stream_script(w, p, short) } else { fut_script(w, fallible(fam), p, short, err_bias) };
-        if sparse {
-            let k = 1 + w.ch.draw("sparse.pends", 2);
-            for _ in 0..k {
-                let m = wake_mode(w, p.allow_never);
-                lp.script.insert(0, Step::Pend(m));
+        let lp = if dense {
+            if fam.is_stream() {
+                let script = if w.ch.draw("dense.item", dense_items) == 0 { vec![Step::Item, Step::End] } else { vec![Step::End] };
+                LeafPlan { script, term: Terminal::Finished }
+            } else {
+                let err = fallible(fam)
+                    && match dense_outcome {
+                        0 => false,
+                        1 => true,
+                        _ => w.ch.draw("dense.err", 8) == 0,
+                    };
+                LeafPlan { script: vec![Step::Ready { err }], term: Terminal::Finished }
             }
-        }
+        } else {
+            let mut lp = if fam.is_stream() { stream_script(w, p, short) } else { fut_script(w, fallible(fam), p, short, err_bias) };
+            if sparse {
+                let k = 1 + w.ch.draw("sparse.pends", 2);
+                for _ in 0..k {
+                    let m = wake_mode(w, p.allow_never);
+                    lp.script.insert(0, Step::Pend(m));
+                }
+            }
+            lp
+        };
         leaves.push(lp);
     }
     if sparse {
@@ -326,6 +390,21 @@ pub fn flat(w: &mut World, p: &Profile) -> Plan {
                 } else {
                     LeafPlan { script: vec![Step::Ready { err: false }], term: Terminal::Finished }
                 };
+            }
+        }
+    }
+    if dense {
+        // zero to two children are not immediately done: they pend once or twice first (a slow success among failures,
+        // a late item behind a run of empty streams)
+        for _ in 0..w.ch.draw("dense.slow", 3) {
+            let i = w.ch.draw("dense.pos", n as u32) as usize;
+            let m = wake_mode(w, false);
+            leaves[i].script.insert(0, Step::Pend(m));
+            if fam.is_stream() {
+                leaves[i].script.insert(1, Step::Item);
+            } else if fallible(fam) {
+                let last = leaves[i].script.len() - 1;
+                leaves[i].script[last] = Step::Ready { err: false };
             }
         }
     }
@@ -368,11 +447,19 @@ pub fn flat(w: &mut World, p: &Profile) -> Plan {
         // mostly short runs; one run in twelve is consumed for more than two full turns of any 8-bit
         // rotation counter (a scan offset kept in a narrow integer wraps only after 256 polls)
         max_yields = if w.ch.draw("fair.long", 12) == 11 { 530 } else { (3 * n as u32 + 4).min(80) };
+        // ... and one in three thousand for more than 2^16 yields (a 16-bit rotation counter)
+        if !small() && n <= 12 && w.ch.draw("fair.ultra", 3000) == 2999 {
+            max_yields = 66_100;
+        }
     }
     let cancel_at = if p.allow_cancel && w.ch.draw("cancel", 4) == 3 { Some(w.ch.draw("cancel.at", 6)) } else { None };
     // one future-family run in eight hands the combinator children *without drop glue* (a destructor that is gated
     // on `mem::needs_drop::<Fut>()` behaves differently for them); their outputs are still tracked values
-    let plain = !fam.is_stream() && cont != Cont::Ext2 && n <= 12 && w.ch.draw("leaf.plain", 8) == 7;
+    // (for merge / zip / chain the same flag selects streams of *zero-sized items*)
+    let plain = (!fam.is_stream() || matches!(fam, Family::Merge | Family::Zip | Family::Chain) && !p.fairness)
+        && cont != Cont::Ext2
+        && n <= 12
+        && w.ch.draw("leaf.plain", 8) == 7;
     Plan { shape: Shape::Flat { fam, cont, n, plain }, leaves, cancel_at, max_yields, distinguished }
 }
 
